@@ -18,6 +18,9 @@ def conditions(tier, seed):
         Cond('build_arity', 'c12_load.py', {}, func='check_arity', timeout=t,
              bound='INSERT with 0..3 names (optionally repeated) x 0..3 values into a class with 1..2 attributes',
              case_split=['nn', 'nv', 'na', 'dup']),
+        Cond('build_keytype', 'c12_load.py', {}, func='check_keytype', timeout=t,
+             bound='association whose referring / referred key attributes are declared with 11 type names (core, lower-case, unknown, empty) each x 7 value tokens x positional / named inserts',
+             case_split=['ti', 'tj', 'vi', 'named']),
         Cond('build_schema', 'c12_load.py', {}, func='check_schema', timeout=t,
              bound='association naming defined/undefined classes and present/missing key attributes (3^2 x 4^2 combinations; the two classes have different attribute sets) x with/without rows x 12 unique-index targets',
              case_split=['ri', 'ui']),
